@@ -249,6 +249,7 @@ class LoopSpec:
             path.assume(i >= 0)
             path.assume(i < n)
             ip.reg.loop_index(ip, i)
+            ip.reg.index_used(ip, i)        # element facts of every registered sequence at the arbitrary iteration
             sti = LoopSpec.State(ip, fr, i, n, S)
             for g in self._inv_terms(sti):
                 path.assume(g)
@@ -438,9 +439,10 @@ class Ctx:
     # ---- loop lookup for the interpreter
     def loop_for(self, ip, st, fr):
         fi = fr.finfo
-        if fi is None or fi.key != self.contract.key:
+        owner = getattr(self, "loop_owner", None) or self.contract.key
+        if fi is None or fi.key != owner:
             return None
-        ordinal = self.contract.loop_ordinal(ip.src, st)
+        ordinal = self.contract.loop_ordinal(ip.src, st, owner)
         return self.loops.get(ordinal)
 
 
@@ -463,9 +465,9 @@ class Contract:
     def short(self) -> str:
         return self.key.split(":", 1)[1]
 
-    def loop_ordinal(self, src, st) -> int:
+    def loop_ordinal(self, src, st, owner=None) -> int:
         """1-based ordinal of a for/while statement in source order; nested defs have their own numbering."""
-        fi = src.funcs[self.key]
+        fi = src.funcs[owner or self.key]
         found = []
 
         def visit(n):
